@@ -18,6 +18,7 @@ pub struct Case {
 
 pub const F_FLOAT: &str = "C14-float-loses-fraction";
 pub const F_STAR_ALIAS: &str = "C14-star-alias-unquoted";
+pub const F_MAIN_ALIAS: &str = "C14-statement-alias-dropped";
 
 pub fn gen_case(t: &mut Tape) -> Case {
     let mut cfg = GenCfg::general();
@@ -142,6 +143,11 @@ pub fn check(case: &Case, known: &Known) -> Outcome {
             out.verdict = Verdict::Known(F_FLOAT.into(), format!("at {path}: {a} became {b}"));
             return out;
         }
+        // finding: a statement-level aliased expression (`x = (from t)` without `let`) loses its alias
+        if path.ends_with(".VarDef.value.alias") && b.is_null() && known.is_open(F_MAIN_ALIAS) {
+            out.verdict = Verdict::Known(F_MAIN_ALIAS.into(), format!("at {path}: alias {a} dropped"));
+            return out;
+        }
         return Outcome::fail(
             "formatted program parses to a different syntax tree",
             json!({"source": src, "formatted": f, "path": path, "before": a, "after": b}),
@@ -191,6 +197,9 @@ pub fn run(ctx: &Ctx) -> i32 {
     let corpus: Vec<Case> = util::repo_queries().into_iter().map(|s| Case { source: s }).collect();
     ctx.enumerate("repo-queries", corpus, |c| check(c, &ctx.known));
     ctx.tape_search("generated", ctx.n(30_000, 1_000_000), 500, gen_case, |c| check(c, &ctx.known));
+    if !ctx.quick() {
+        ctx.fuzz_campaign("fmt_rt", ctx.fuzz_secs(300), 2048);
+    }
     ctx.finish(
         "printed model programs with every construct of the generator (operator nestings with the minimal parentheses of the documented table, unary/binary adjacencies, case, in-ranges, f-strings, named and piped function arguments, let / into, nested pipelines, long tuples that force wrapping) and the repository's integration queries: format, re-parse, compare the syntax trees without spans and doc comments (first differing JSON path is reported), format again (idempotence), compile both (same SQL). non-trivial = nested binary operators, named arguments, backticks or wrapped lines; distinct = source text",
         &["comments are not part of the tree and are not compared", "SQL is compared only when the source compiles; a difference must persist over repeated compilation (compilation is not deterministic)"],
